@@ -23,9 +23,26 @@ def isotropic_plus(exports_sys, rng, scale):
     return {k: base[k] + pert[k] for k in KEYS21}
 
 
-def system_dataset(rng, exports, system, det_sets=None, **kw):
+def sufficient_subset(rng, e):
+    """A random SUFFICIENT proper subset of the non-vanishing components of a system (the relations then determine the rest):
+    components are dropped one at a time as long as the null-space basis restricted to the kept ones keeps full rank."""
+    null = numpy.array([[x[0] / x[1] for x in v] for v in e["null"]], dtype=float)          # (d, 21)
+    d = null.shape[0]
+    van = set(e["vanishing"])
+    keep = [n for n in range(1, 22) if n not in van]
+    for n in [int(x) for x in rng.permutation(keep)]:
+        rest = [m for m in keep if m != n]
+        if rest and numpy.linalg.matrix_rank(null[:, [m - 1 for m in rest]], tol=1e-9) == d:
+            if rng.random() < 0.8:
+                keep = rest
+    return sorted(keep)
+
+
+def system_dataset(rng, exports, system, det_sets=None, minimal=False, **kw):
     """Data set whose static table is an invariant tensor field of `system`; supplies a sufficient subset of columns."""
     e = exports[system]
+    if minimal and det_sets is None:
+        det_sets = [sufficient_subset(rng, e)]
     c0 = isotropic_plus(e, rng, 12.0)
     c1 = isotropic_plus(e, rng, 60.0)
     c2 = fillspec.invariant_vector(e, rng, -300.0, 300.0)
@@ -106,5 +123,15 @@ def oracle_case(ds, calc):
         freq, g, kp = ds.freq(v), numpy.broadcast_to(ds.gam[None], (ntv, ds.nq, ds.np)).copy(), numpy.zeros((ntv, ds.nq, ds.np))
     return dict(nq=ds.nq, na=ds.nat, np=ds.np, v=v, t=numpy.asarray(calc.t_array, dtype=float),
                 freq=freq, g=g, kp=kp, w=ds.weights.copy(),
-                ptot=numpy.asarray(calc.qha_calculator.volume_base.pressures), pst=numpy.asarray(calc.static_p_array),
-                cv=numpy.asarray(calc.qha_calculator.volume_base.heat_capacity))
+                ptot=qha_field(calc, "p_tv_au", "pressures"), pst=numpy.asarray(calc.static_p_array),
+                cv=qha_field(calc, "cv_tv_au", "heat_capacity"))
+
+
+def qha_field(calc, raw_name, adapter_name):
+    """P_total(T,V) / C_V(T,V) as the QHA layer itself holds them (qha's calculator object); cij's adapter property of the same
+    quantity is the fallback when the adapter keeps its qha object elsewhere."""
+    adapter = calc.qha_calculator
+    raw = getattr(adapter, "calculator", None)
+    if raw is not None and hasattr(raw, raw_name):
+        return numpy.asarray(getattr(raw, raw_name))
+    return numpy.asarray(getattr(adapter.volume_base, adapter_name))
